@@ -204,6 +204,42 @@ class SlotDictNM(Record, NodeMixin):
         return "SlotDictNM(%r)" % (self.name,)
 
 
+class StatefulNM(NodeMixin):
+    """User class with the usual __getstate__/__setstate__ pair."""
+
+    def __init__(self, name=None, parent=None, children=None):
+        self.name = name
+        self.parent = parent
+        if children:
+            self.children = children
+
+    def __getstate__(self):
+        return dict(self.__dict__)
+
+    def __setstate__(self, state):
+        self.__dict__.update(state)
+
+    def __repr__(self):
+        return "StatefulNM(%r)" % (self.name,)
+
+
+FIXED_TARGET = StatefulNM("fixed-target")
+
+
+class FixedLink(SymlinkNodeMixin):
+    """All links of this class point at one node: `target` is a class-level attribute (nothing about it is stored per link)."""
+
+    target = FIXED_TARGET
+
+    def __init__(self, parent=None, children=None):
+        self.parent = parent
+        if children:
+            self.children = children
+
+    def __repr__(self):
+        return "FixedLink(...)"
+
+
 class PropLink(Titled, SymlinkNodeMixin):
     """Link whose `target` is a read-only property (the docs only require that the class has a `target` attribute)."""
 
